@@ -220,7 +220,9 @@ def run(ck, only=None):
         rerun_part(ck, only)
     if not only or only.get("foreign"):
         foreign_part(ck, only)
-    if only and (only.get("odd") or only.get("rerun") or only.get("foreign")):
+    if not only or only.get("inproc"):
+        in_process_history_part(ck, only)
+    if only and (only.get("odd") or only.get("rerun") or only.get("foreign") or only.get("inproc")):
         return
     ck.sample({"definition": f"{fns[7].storage} {fns[7].proto()} {{ ...fold arguments, store g_hash, derive result... }}", "variants": [v[0] for v in VARIANTS]})
     ck.extra["static_functions"] = len(fns)
@@ -368,6 +370,51 @@ def foreign_part(ck, only=None):
         if verdict != "ok":
             ck.violation(f"foreign-target {t} suffix={suf} {verdict}", {"foreign": f"{t}|{suf}", "why": why})
     ck.extra["foreign_target_wrapper_runs"] = len(jobs)
+
+
+def in_process_history_part(ck, only=None):
+    """Two and three generations in ONE process (what a build script with several configurations does), each with its own wrapper
+    path, whose headers define static functions of the same names: every generation's wrapper source defines every wrapper its
+    own bindings name."""
+    wd = os.path.join(ck.wd, "inproc")
+    os.makedirs(wd, exist_ok=True)
+    hdrs = {"first.h": "static inline int add(int x, int y) { return x + y; }\nstatic inline int only_first(int x) { return x; }\n",
+            "second.h": "static inline int add(int x, int y) { return x + y + 1; }\nstatic inline long only_second(long x) { return x; }\n",
+            "third.h": "static inline long add(long x) { return x; }\n"}
+    for n, t in hdrs.items():
+        open(os.path.join(wd, n), "w").write(t)
+    import itertools
+    seqs = [p for k in (2, 3) for p in itertools.permutations(sorted(hdrs), k)] + [("first.h", "first.h"), ("third.h", "third.h", "first.h")]
+    jobs = []
+    for si, seq in enumerate(seqs):
+        jj = []
+        for k, h in enumerate(seq):
+            w = os.path.join(wd, f"w_{si}_{k}")
+            jj.append({"args": [os.path.join(wd, h), "--experimental", "--wrap-static-fns", "--wrap-static-fns-path", w, "--no-layout-tests", "--formatter", "none"],
+                       "side_files": [w + ".c"], "keep_side": True})
+        for thr in (False, True):
+            jobs.append({"id": f"{si}|{int(thr)}", "mode": "history", "jobs": jj, "fresh": True, "thread_per_generation": thr, "timeout": 120})
+    res = common.run_jobs(jobs, wd, timeout=120)
+    for jid, r in res.items():
+        si, thr = jid.split("|")
+        seq = seqs[int(si)]
+        ck.count()
+        ck.nontriv(("inproc", jid))
+        if r["status"] != "ok":
+            ck.violation(f"in-process history {list(seq)} threads={thr} {r['status']}", {"inproc": jid, "why": str(r)[:200]})
+            continue
+        for k, (h, o) in enumerate(zip(seq, r["outs"])):
+            if o.get("status") != "ok":
+                ck.violation(f"in-process history {list(seq)} threads={thr} generation={k} {o.get('status')}", {"inproc": jid, "why": str(o)[:200]})
+                break
+            named = set(re.findall(r'link_name\s*=\s*"(?:\\u\{1\})?([^"]+)"', o["text"]))
+            wsrc = "".join((o.get("side") or {}).values())
+            missing = sorted(n for n in named if not re.search(rf"\b{re.escape(n)}\s*\(", wsrc))
+            if missing or not named:
+                ck.violation(f"in-process history {list(seq)} threads={thr} generation={k}", {"inproc": jid, "why": f"generation #{k} ({h}): bindings name {sorted(named)}, "
+                             f"its wrapper source does not define {missing}: {wsrc[:200]!r}"})
+                break
+    ck.extra["in_process_histories"] = len(jobs)
 
 
 def rerun_part(ck, only=None):
